@@ -131,6 +131,19 @@ func buildCfgCase(seed int64, idx int, dir string, thorough bool) *cfgCase {
 				vals["flag"] = filepath.Join(dir, tag+".flag")
 			}
 		}
+		// second half of the Latin square: where two or more sources meet and the winner is the file or the
+		// command line, the winner's value is the built-in default itself (the empty string for the stats
+		// address and the log file) - a value that must still override what the lower source said
+		if idx >= 8 && idx < 16 && (sub == 3 || sub >= 5) {
+			top := "file"
+			if sub&4 != 0 {
+				top = "flag"
+			}
+			switch {
+			case strings.HasPrefix(k.Role, "workers:"), k.Role == "stats-addr", k.Role == "log-file", k.Role == "cpu-cap":
+				vals[top] = builtin[k.Name]
+			}
+		}
 		eff := builtin[k.Name]
 		src := "default"
 		if sub&1 != 0 {
@@ -327,7 +340,11 @@ func runCfgCase(c *cfgCase, bin, dir string) (kind, what string, inconcl string)
 		} else {
 			obs["stats listener"] = fmt.Sprintf("%s:%d", a, statsPort)
 			// bind address: 00000000 / 0100007F ...
-			if E["stats-http-addr"] != "" {
+			if E["stats-http-addr"] == "" {
+				if strings.Trim(a, "0") != "" {
+					addp("stats-http-addr", "stats listener bound to %s, expected the wildcard address", a)
+				}
+			} else {
 				ipb := strings.Split(E["stats-http-addr"], ".")
 				want := ""
 				for i := 3; i >= 0; i-- {
@@ -390,6 +407,13 @@ func runCfgCase(c *cfgCase, bin, dir string) (kind, what string, inconcl string)
 			addp("log-file", "expected log output in %s: %v (%d octets)", E["log-file"], err, len(b))
 		}
 		logText += string(b)
+	}
+	for _, cand := range []string{c.Env["VFLOW_LOG_FILE"], c.File["log-file"], c.Flags["log-file"]} {
+		if cand != "" && cand != E["log-file"] {
+			if _, err := os.Stat(cand); err == nil {
+				addp("log-file", "the log went to %s, a value of an overridden source (expected %q)", cand, E["log-file"])
+			}
+		}
 	}
 	sawVerbose := strings.Contains(logText, "the full logging enabled")
 	obs["verbose"] = strconv.FormatBool(sawVerbose)
@@ -585,7 +609,7 @@ func configMain(args mon.Args) {
 	}
 	run.Set("key_x_source_cells_covered", len(cells))
 	run.Set("keys_observed", len(ckeys))
-	run.SetRule("every observed key (4 UDP ports, 4 enable switches, 4 worker counts, stats port/address/format/enabled, pid file, log file, verbose, 2 cache files, cpu-cap, producer-enabled, dynamic-workers, ipfix-rpc-enabled: integer, string and boolean kinds) gets an independent subset of {VFLOW_* environment, configuration file, command line} by a Latin square over 16 collector processes (every key meets all 8 subsets), with a distinct value per source (a boolean source always disagrees with the one it overrides); thorough adds random subsets/values and boolean spellings. The real binary is started and the effective value is read back behaviourally: UDP/TCP sockets of the process from /proc, Workers from /flow or /metrics, which endpoint answers, files that appear (pid, log, cache files after SIGTERM), the verbose banner. Expected = flag ?? file ?? env ?? built-in default. distinct = source assignment")
+	run.SetRule("every observed key (4 UDP ports, 4 enable switches, 4 worker counts, stats port/address/format/enabled, pid file, log file, verbose, 2 cache files, cpu-cap, producer-enabled, dynamic-workers, ipfix-rpc-enabled: integer, string and boolean kinds) gets an independent subset of {VFLOW_* environment, configuration file, command line} by a Latin square over 16 collector processes (every key meets all 8 subsets), with a distinct value per source (a boolean source always disagrees with the one it overrides; in half of the processes a winning file/flag value of the worker counts, stats address, log file and cpu-cap is the built-in default itself, i.e. 200, the empty string, 100%); the -config option stands first, last or in the middle of the command line; thorough adds random subsets/values and boolean spellings. The real binary is started and the effective value is read back behaviourally: UDP/TCP sockets of the process from /proc, Workers from /flow or /metrics, which endpoint answers, files that appear (pid, log, cache files after SIGTERM), the verbose banner. Expected = flag ?? file ?? env ?? built-in default. distinct = source assignment")
 	run.Assume("keys without an external observable (*-udp-size, mirror settings, topics with the rawSocket backend, mq-name) and the list-valued sflow-type-filter are not covered")
 	run.Finish()
 }
